@@ -58,24 +58,30 @@ func c11RewriteFirstHello(data []byte, f func(m *handshake.MessageClientHello) b
 // the on-path rewriter (returned; nil when there is none).
 func c11SteerApply(res *c11Case, _ *dtlsConfig, scfg *dtlsConfig) func(vDatagram) [][]byte {
 	st := res.Steer
-	if st.SHALPN > 0 {
+	if st.SHALPN > 0 || st.SHSuite > 0 {
 		name := fmt.Sprintf("p%d", st.SHALPN)
 		scfg.ServerHelloMessageHook = func(sh handshake.MessageServerHello) handshake.Message {
-			exts := make([]extension.Value, 0, len(sh.Extensions)+1)
-			done := false
-			for _, e := range sh.Extensions {
-				if e.ExtensionType() == extension.TypeALPN {
-					exts = append(exts, &extension.ALPNSelection{Protocol: name})
-					done = true
+			if st.SHALPN > 0 {
+				exts := make([]extension.Value, 0, len(sh.Extensions)+1)
+				done := false
+				for _, e := range sh.Extensions {
+					if e.ExtensionType() == extension.TypeALPN {
+						exts = append(exts, &extension.ALPNSelection{Protocol: name})
+						done = true
 
-					continue
+						continue
+					}
+					exts = append(exts, e)
 				}
-				exts = append(exts, e)
+				if !done {
+					exts = append(exts, &extension.ALPNSelection{Protocol: name})
+				}
+				sh.Extensions = exts
 			}
-			if !done {
-				exts = append(exts, &extension.ALPNSelection{Protocol: name})
+			if st.SHSuite > 0 {
+				id := uint16(st.SHSuite)
+				sh.CipherSuiteID = &id
 			}
-			sh.Extensions = exts
 			res.Steer.Applied++
 
 			return &sh
@@ -146,9 +152,9 @@ func c11SteerApply(res *c11Case, _ *dtlsConfig, scfg *dtlsConfig) func(vDatagram
 			return nil
 		}
 		res.Steer.Applied++
-		if st.CH1StripVers {
-			// a dual-stack server only looks at the ClientHello again when another record arrives (F20); an exact copy
-			// is dropped as a replay, so the second copy carries the next (unauthenticated) record sequence number
+		if st.CH1StripVers && st.Twice {
+			// before bddd645 a dual-stack server only looked at the ClientHello again when another record arrived (F20);
+			// the second copy carries the next (unauthenticated) record sequence number so that it is not a replay
 			again := append([]byte(nil), out...)
 			again[10]++
 
@@ -200,6 +206,39 @@ func c11SteerFixed() []c11SteerJob {
 		s.Key = 1
 		c.ALPN, s.ALPN = []int{1, 2}, []int{2, 3}
 		o.Steer.SHALPN = 1
+	})
+	// ---- ServerHello message hook (an honest application hook, or a rogue server): the server must commit what its
+	// FINAL ServerHello says
+	add("hook-appends-alpn-server-without-alpn", false, func(c, s *c11Cfg, o *c11Opt) {
+		s.Key = 1
+		c.ALPN = []int{1, 2}
+		o.Steer.SHALPN = 2
+	})
+	add("hook-rewrites-alpn", false, func(c, s *c11Cfg, o *c11Opt) {
+		s.Key = 2
+		c.ALPN, s.ALPN = []int{1, 2}, []int{1, 2}
+		o.Steer.SHALPN = 2
+	})
+	add("hook-rewrites-alpn-resumed", true, func(c, s *c11Cfg, o *c11Opt) {
+		s.Key = 1
+		c.Store, s.Store = true, true
+		c.ALPN, s.ALPN = []int{1, 2}, []int{1, 2}
+		o.Steer.SHALPN = 2
+		c0, s0 := *c, *s
+		o.SeedC, o.SeedS = &c0, &s0
+	})
+	add("hook-swaps-cipher-suite", false, func(_, s *c11Cfg, o *c11Opt) {
+		s.Key = 2
+		o.Steer.SHSuite = 0xc02f
+	})
+	add("hook-swaps-cipher-suite-psk", false, func(c, s *c11Cfg, o *c11Opt) {
+		c.PSK, c.Hint, s.PSK, s.Hint = true, true, true, true
+		c.SuitesSet, c.Suites, s.SuitesSet, s.Suites = true, []int{0xc0a4, 0xc0a8}, true, []int{0xc0a4, 0xc0a8}
+		o.Steer.SHSuite = 0xc0a8
+	})
+	add("control-hook-names-the-same-suite", false, func(_, s *c11Cfg, o *c11Opt) {
+		s.Key = 2
+		o.Steer.SHSuite = 0xc02b
 	})
 	// ---- on-path rewriting of the first ClientHello only (hello verification on)
 	add("ch1-groups-cert", false, func(c, s *c11Cfg, o *c11Opt) {
@@ -304,6 +343,12 @@ func c11SteerFixed() []c11SteerJob {
 		c.Min, c.Max, s.Min, s.Max = 2, 3, 2, 3
 		c.Curves = []int{29}
 		o.Steer.CH1StripVers = true
+	})
+	add("downgrade-dual-stack-strip-supported-versions-forwarded-twice", false, func(c, s *c11Cfg, o *c11Opt) {
+		s.Key = 1
+		c.Min, c.Max, s.Min, s.Max = 2, 3, 2, 3
+		c.Curves = []int{29}
+		o.Steer.CH1StripVers, o.Steer.Twice = true, true
 	})
 	add("downgrade-dual-client-13-only-server", false, func(c, s *c11Cfg, o *c11Opt) {
 		s.Key = 1
